@@ -163,6 +163,15 @@ func c16Cleanup(r *R, rule string) {
 		}
 	}
 	r.c.Floor(rule, n, 2, "paths of dtChannel.cleanup")
+	// the mapping is deleted while the channel lock is held: the request hook and open add
+	// mappings under that lock, so a cleanup that does not take it can be overtaken by them
+	// and leave a mapping (and later events) for a channel that is gone
+	for _, ci := range core.CallSites(fn) {
+		if r.p.CalleeName(ci.Common()) == "(*transport/graphsync.requestIDToChannelIDMap).deleteRefs" {
+			held := lockRegions(r.p, fn)[ci.(ssa.Instruction)]
+			r.c.Check(held["transport/graphsync.dtChannel.lk/W"] || callersHold(r.p, fn, "transport/graphsync.dtChannel.lk", true, 2), rule, "dtChannel.cleanup/under-channel-lock", r.p.InstrPos(ci), "mapping deleted under the channel lock", "dtChannel.cleanup deletes the request → channel mapping without holding the channel lock (held: "+strings.Join(held.ids(), ",")+"): a concurrent request hook can re-add a mapping for the cleaned-up channel")
+		}
+	}
 	us := r.fn(rule, "transport/graphsync", "dtChannel", "useStore")
 	if s := r.one(rule, us, "(github.com/ipfs/go-graphsync.GraphExchange).RegisterPersistenceOption"); s != nil {
 		r.argIs(rule, s, 0, `("data-transfer-"+c.channelID.String())`, "name the store is registered under")
